@@ -418,6 +418,40 @@ def r3_closure_params(text, fired):
     return text
 
 
+def r3_tuple_closure_params(text, fired):
+    """|(a, b)| BODY  ->  |tp_N| { let (a, b) = tp_N; BODY }   (pattern hoisting; BODY = the closure's body expression)"""
+    n = 0
+    while True:
+        msk = mask(text)
+        m = re.search(r'\|\(\s*((?:(?:mut\s+)?\w+\s*,\s*)+(?:mut\s+)?\w+\s*,?)\s*\)\|\s*', msk)
+        if not m:
+            break
+        n += 1
+        k = m.end()
+        # body: a block, or an expression up to the closing bracket of the enclosing call / a top-level comma
+        if msk[k] == '{':
+            e = match_close(msk, k) + 1
+        else:
+            d, e = 0, k
+            while e < len(msk):
+                c = msk[e]
+                if c in '([{':
+                    d += 1
+                elif c in ')]}':
+                    if d == 0:
+                        break
+                    d -= 1
+                elif c == ',' and d == 0:
+                    break
+                e += 1
+        body = text[k:e]
+        var = 'tp_%d' % n
+        new = '|%s| { let (%s) = %s; %s }' % (var, norm_ws(m.group(1)), var, body)
+        fired.append('R3 tuple-pattern closure parameter hoisted: |(%s)|' % norm_ws(m.group(1)))
+        text = text[:m.start()] + _pad(new, text[m.start():e]) + text[e:]
+    return text
+
+
 def r4_map_err_ctx(text, fired):
     """let P = X.map_err(|e| { S; e })?;   ->   let P = match X { Ok(v) => v, Err(e) => { S; return Err(e); } };
     only when S mentions `ctx` (the closure would capture it mutably)."""
@@ -477,6 +511,7 @@ def rewrite_body(text, fired):
     text = r4_map_err_ctx(text, fired)
     text = r1_eta(text, fired)
     text = r3_closure_params(text, fired)
+    text = r3_tuple_closure_params(text, fired)
     text = r5_asserts(text, fired)
     text = r7_format(text, fired)
     return text
@@ -527,6 +562,34 @@ def apply_splices(body, splices, fired, what):
         if cnt != 1:
             raise ExtractError('ANCHOR-LOST in %s: %r occurs %d times' % (what, anchor, cnt))
         ghost = txt.replace('\n', SEP)
+        if mode == 'closure':
+            # anchor = the closure's parameter list as written (`|e|`); txt = annotated header
+            # (`|e: T| -> (q: R) ensures ..`).  A non-block body is wrapped in braces (same expression).
+            pos = body.index(anchor)
+            msk = mask(body)
+            k = pos + len(anchor)
+            while msk[k] in ' \t\n':
+                k += 1
+            if msk[k] == '{':
+                e = match_close(msk, k) + 1
+                inner = body[k:e]
+            else:
+                d, e = 0, k
+                while e < len(msk):
+                    c = msk[e]
+                    if c in '([{':
+                        d += 1
+                    elif c in ')]}':
+                        if d == 0:
+                            break
+                        d -= 1
+                    elif c == ',' and d == 0:
+                        break
+                    e += 1
+                inner = '{ ' + body[k:e] + ' }'
+            body = body[:pos] + ghost + ' ' + inner + body[e:]
+            fired.append('R8 closure annotated %r' % anchor)
+            continue
         if mode == 'after':
             body = body.replace(anchor, anchor + SEP + ghost + SEP, 1)
         elif mode == 'before':
